@@ -1,8 +1,9 @@
 """C14 — every HTTP request to the broker gets a well-formed response; legacy == versioned."""
 import json
 import os
+import threading
 import vlib
-from checks import brokerlib
+from checks import brokerlib, c14live
 
 CID = "C14"
 FP = brokerlib.DEFAULT_FP
@@ -123,12 +124,80 @@ def gen(ctx):
     return cases
 
 
+def start_live(ctx, test_exe):
+    """the broker binary over TCP and the concurrent soak, next to the rest of the check (they mostly wait)"""
+    box = dict(viol=[], notshown=[], stats={})
+
+    def work():
+        try:
+            bin_exe = vlib.go_build("./broker", name="broker")
+        except vlib.GoBuildError as e:
+            box["notshown"].append("live: `go build ./broker` failed: " + str(e)[-800:])
+            return
+        jobs = [lambda: c14live.run_binary(bin_exe, os.path.join(vlib.GOB, "c14live-%d" % os.getpid())),
+                lambda: c14live.run_soak(test_exe, os.path.join(vlib.GOB, "c14soak-%d" % os.getpid()), 3000 if ctx.tier == "quick" else 8000)]
+        if ctx.tier == "thorough":
+            jobs += [lambda: c14live.run_soak(test_exe, os.path.join(vlib.GOB, "c14soak-%d-%d" % (os.getpid(), k)), 8000) for k in range(3)]
+        ths = []
+        res = [None] * len(jobs)
+
+        def one(k):
+            try:
+                res[k] = jobs[k]()
+            except Exception as e:   # machinery trouble is reported, never swallowed
+                res[k] = ([], ["live: machinery error %r" % (e,)], {})
+        for k in range(len(jobs)):
+            t = threading.Thread(target=one, args=(k,), daemon=True)
+            t.start()
+            ths.append(t)
+            if k >= 1:
+                t.join()            # soaks one after the other; the binary scenario (mostly waiting) runs beside them
+        for t in ths:
+            t.join()
+        for r in res:
+            v, n, st = r
+            box["viol"] += v
+            box["notshown"] += n
+            for k_, v_ in st.items():
+                box["stats"][k_] = box["stats"].get(k_, 0) + v_ if k_.startswith("soak_") else v_
+    th = threading.Thread(target=work, daemon=True)
+    th.start()
+    return th, box
+
+
+def finish_live(ctx, th, box):
+    th.join(400)
+    if th.is_alive():
+        ctx.not_shown("live: the broker binary / soak jobs did not finish within 400 s")
+        return
+    for key, what, rep in box["viol"]:
+        ctx.violation(key, what, rep)
+        ctx.count("live " + key + " " + what[:80], kind="live")
+    for n in box["notshown"]:
+        ctx.not_shown(n)
+    st = box["stats"]
+    for name in ("idle-poll", "client-v-silent", "client-l-silent", "client-a-silent"):
+        ctx.count("live-binary " + name, kind="live-binary-slow-response")
+    ctx.count("live-binary immediate x%d" % st.get("live_requests", 0), kind="live-binary")
+    ctx.count("soak matches=%s debug=%s" % (st.get("soak_matches"), st.get("soak_debug")), kind="soak")
+    ctx.extra["live"] = st
+
+
 def run(ctx):
     exe = vlib.go_test_build("./broker", name="broker.test")
+    live_th, live_box = start_live(ctx, exe)
+    try:
+        run_rest(ctx, exe)
+    finally:
+        finish_live(ctx, live_th, live_box)
+
+
+def run_rest(ctx, exe):
     env = dict(os.environ, VERIF_DRIVER="brokerhttp")
     ctx.assumptions += ["model = coq/Model/BrokerHttp.v (handlers as total functions of read result and IPC outcome); IPC outcome per case observed by a direct IPC call on the versioned twin body",
                         "net/http framing, MaxBytesReader and the AMP armor are library code: monitored (complete response, connection reusable, server alive), not modelled"]
     ctx.trusted.append("harness/overlay/broker/zz_verif_http_test.go (raw TCP client, real net/http server with the routes of main())")
+    ctx.trusted.append("lib/checks/c14live.py (python http.client against the broker binary started from main()); harness/overlay/broker/zz_verif_soak_test.go")
     cases = gen(ctx)
     cases.sort(key=lambda c: 0 if c[0] == "proxy-rejected-pattern" else 1)   # stable: the rejected polls go first
     lines = [c[1] for c in cases]
